@@ -82,9 +82,12 @@ class MergeExtractor(BaseExtractor):
                                         if column_reference_optional := e.get_child(
                                             "column_reference"
                                         ):
-                                            if cqt := extract_column_qualifier(
-                                                column_reference_optional
-                                            ):
+                                            if (
+                                                cqt := extract_column_qualifier(
+                                                    column_reference_optional
+                                                )
+                                            ) and j < len(insert_columns):
+                                                # a value beyond the insert column list has no target column
                                                 src_col = Column(cqt.column)
                                                 src_col.parent = direct_source
                                                 holder.add_column_lineage(
